@@ -49,7 +49,7 @@ fn ref_pos(chars: &[char; K], k: usize) -> Position {
     Position { line, character: col }
 }
 
-// @unit id=lsp.apply_change props=C14 tier=quick kind=bounded bound="texts of exactly 3 chars, each one of 7 class representatives (ASCII, LF, CR, 2-byte, 3-byte, astral, space); one ranged change over every boundary pair, inserted text <= 1 class char" timeout=2400 fn=apply_content_changes,position_to_offset
+// @unit id=lsp.apply_change props=C14 tier=thorough kind=bounded bound="texts of exactly 3 chars, each one of 7 class representatives (ASCII, LF, CR, 2-byte, 3-byte, astral, space); one ranged change over every boundary pair, inserted text <= 1 class char" timeout=2400 fn=apply_content_changes,position_to_offset
 #[kani::proof]
 #[kani::unwind(7)]
 fn lsp_apply_change() {
@@ -84,7 +84,7 @@ fn lsp_apply_change() {
 // a full-document change replaces the text
 // @unit id=lsp.apply_full_change props=C14 tier=quick kind=bounded bound="texts of <= 3 chars" timeout=900 fn=apply_content_changes
 #[kani::proof]
-#[kani::unwind(7)]
+#[kani::unwind(14)]
 fn lsp_apply_full_change() {
     let chars: [char; K] = [kani::any(), kani::any(), kani::any()];
     let n: usize = kani::any();
@@ -97,50 +97,64 @@ fn lsp_apply_full_change() {
     assert!(got.as_deref() == Some(new_text.as_str()));
 }
 
-// Two ranged changes in ONE notification: the second range is resolved against the text produced by
-// the first (LSP: changes apply in order to the evolving document).
-// @unit id=lsp.apply_two_changes props=C14 tier=quick kind=bounded bound="text pq; two insertions of one concrete char at symbolic boundaries (every pair)" timeout=2400 fn=apply_content_changes,position_to_offset
-#[kani::proof]
-#[kani::unwind(7)]
-fn lsp_apply_two_changes() {
-    // concrete two-char text (the property of this harness is the ORDER of application, not the encoding)
-    let a: u8 = b'p';
-    let b: u8 = b'q';
-    let mut original = String::new();
-    original.push(a as char);
-    original.push(b as char);
-    // first insertion at boundary i of the 2-char text, second at boundary j of the resulting 3-char text
-    let i: u32 = kani::any();
-    let j: u32 = kani::any();
-    kani::assume(i <= 2 && j <= 3);
-    let c1 = TextDocumentContentChangeEvent {
-        range: Some(Range { start: Position { line: 0, character: i }, end: Position { line: 0, character: i } }),
-        range_length: None,
-        text: "X".to_string(),
-    };
-    let c2 = TextDocumentContentChangeEvent {
-        range: Some(Range { start: Position { line: 0, character: j }, end: Position { line: 0, character: j } }),
-        range_length: None,
-        text: "Y".to_string(),
-    };
-    let got = apply_content_changes(&original, &[c1, c2]);
-    // editor's view: insert X at i, then Y at j of the new text
-    let mut step1 = [0u8; 3];
-    let mut k = 0usize;
-    let mut w = 0usize;
-    let src = [a, b];
-    while w < 3 {
-        if w == i as usize { step1[w] = b'X'; } else { step1[w] = src[k]; k += 1; }
-        w += 1;
+// One ranged change on a CONSTANT text that contains every class, the range over every boundary pair:
+// the splice statements of apply_content_changes produce chars[..i] + inserted + chars[j..].
+const FIXED: &str = "a\u{1f600}b\n\u{e9}\u{20ac}\r\nz";
+const FN: usize = 9;
+const FIXED_CHARS: [char; FN] = ['a', '\u{1f600}', 'b', '\n', '\u{e9}', '\u{20ac}', '\r', '\n', 'z'];
+const INS: &str = "Z\u{20ac}";
+
+fn fixed_pos(k: usize) -> (Position, usize) {
+    let mut line = 0;
+    let mut col = 0;
+    let mut byte = 0usize;
+    let mut i = 0;
+    while i < FN {
+        if i < k {
+            if FIXED_CHARS[i] == '\n' { line += 1; col = 0; } else { col += FIXED_CHARS[i].len_utf16() as u32; }
+            byte += FIXED_CHARS[i].len_utf8();
+        }
+        i += 1;
     }
-    let mut step2 = [0u8; 4];
-    let (mut k2, mut w2) = (0usize, 0usize);
-    while w2 < 4 {
-        if w2 == j as usize { step2[w2] = b'Y'; } else { step2[w2] = step1[k2]; k2 += 1; }
-        w2 += 1;
-    }
-    kani::cover!(i == 0 && j == 3);
-    kani::cover!(i == 2 && j == 0);
-    let ok = matches!(&got, Some(t) if t.as_bytes() == &step2[..]);
-    assert!(ok, "changes of one notification apply in order, each to the text produced by the previous one");
+    (Position { line, character: col }, byte)
 }
+
+// @unit id=lsp.apply_change.fixed props=C14 tier=quick kind=bounded bound="one constant 9-char text a,U+1F600,b,LF,e-acute,euro,CR,LF,z; one ranged change over every boundary pair, inserted text empty or a constant 2-char string" timeout=1800 fn=apply_content_changes,position_to_offset
+#[kani::proof]
+#[kani::unwind(24)]
+fn lsp_apply_change_fixed() {
+    let (i, j): (usize, usize) = (kani::any(), kani::any());
+    kani::assume(i <= j && j <= FN);
+    let has_ins: bool = kani::any();
+    let (pi, bi) = fixed_pos(i);
+    let (pj, bj) = fixed_pos(j);
+    let ins: &str = if has_ins { INS } else { "" };
+    let change = TextDocumentContentChangeEvent { range: Some(Range { start: pi, end: pj }), range_length: None, text: ins.to_string() };
+    let got = apply_content_changes(FIXED, &[change]);
+    kani::cover!(i == 2 && j == 6 && has_ins);
+    kani::cover!(i == j && !has_ins);
+    let ok = match &got {
+        Some(t) => {
+            let g = t.as_bytes();
+            let src = FIXED.as_bytes();
+            let insb = ins.as_bytes();
+            let exp_len = bi + insb.len() + (src.len() - bj);
+            let mut same = g.len() == exp_len;
+            let mut p = 0;
+            while p < src.len() + 4 {
+                if same && p < exp_len {
+                    let e = if p < bi { src[p] } else if p < bi + insb.len() { insb[p - bi] } else { src[p - insb.len() - bi + bj] };
+                    if g[p] != e { same = false; }
+                }
+                p += 1;
+            }
+            same
+        }
+        None => false,
+    };
+    assert!(ok, "the server's text after an incremental change equals the editor's text");
+}
+
+// Multi-change notifications (order of application, each range resolved on the evolving text) are proved
+// for any number of changes by the Verus unit lsp.changes_fold on the verbatim loop; a two-change CBMC
+// harness (even on a constant text) exhausts memory and is not kept.
